@@ -49,7 +49,7 @@ pub struct EncryptedHeader {
     pub iv: Vec<u8>,
 
     /// Encryption type
-    #[br(map = |x: u8| EncryptionType::from_byte(x).expect("valid encryption type byte"))]
+    #[br(try_map = |x: u8| EncryptionType::from_byte(x).ok_or_else(|| format!("unknown encryption type 0x{x:02X}")))]
     #[bw(map = |x: &EncryptionType| x.as_byte())]
     pub encryption_type: EncryptionType,
 }
